@@ -424,7 +424,7 @@ Section Enc.
     assert (forall r, g_ttheader_Encode bytes xmalloc xwb xpoke fuel fl sq pid mi ms st0 os oi = r -> True) as _ by auto.
     assert (g_ttheader_Encode bytes xmalloc xwb xpoke fuel fl sq pid mi ms st0 os oi =
             let M := gbe 4 (wrapu 32 (268435456 + fl)) in let Q := gbe 4 (wrapu 32 sq) in
-            if (wrapu 32 (Z.of_N size) >? 65536)%Z
+            if (Z.of_N size >? 65536)%Z
             then Ok (st0 ++ t ++ M ++ Q ++ y ++ [gbyte pid] ++ [gbyte 0] ++ kvb, gregion_nil, Some (ecode "ttheader.Encode#fmt.Errorf#6"))
             else Ok (st0 ++ t ++ M ++ Q ++ gbe 2 (wrapu 16 (Z.of_N (size / 4))) ++ [gbyte pid] ++ [gbyte 0] ++ kvb, (glen st0, 4%Z), gnil)) as RUN.
     { cbv delta [g_ttheader_Encode] beta. sx. rewrite xmalloc_ok by lia. sx. rewrite Ed.
@@ -441,7 +441,7 @@ Section Enc.
       rewrite WriteByte_eq. sx. rewrite WriteByte_eq. sx.
       cbn [g_ttheader_Encode_loop1]. sx. change (glen (@nil N)) with 0%Z. rewrite (wraps64_small (2 + 0)) by lia.
       change (2 + 0)%Z with (Z.of_N 2). rewrite KV'. sx.
-      destruct (wrapu 32 (Z.of_N size) >? 65536)%Z; [rewrite <- !app_assoc; reflexivity|].
+      destruct (Z.of_N size >? 65536)%Z; [rewrite <- !app_assoc; reflexivity|].
       unfold gquot. cbn [Z.eqb bind]. rewrite Z.quot_div_nonneg by lia.
       replace (Z.of_N size / 4)%Z with (Z.of_N (size / 4)) by (rewrite N2Z.inj_div; reflexivity).
       assert (size / 4 <= size) as Hq by (apply N.div_le_upper_bound; lia).
@@ -452,12 +452,10 @@ Section Enc.
       rewrite gput_mid by (rewrite gbe_len; lia). sx.
       rewrite <- !app_assoc. replace (glen st0 + 0)%Z with (glen st0) by lia. reflexivity. }
     rewrite RUN. clear RUN KV'. cbv zeta. unfold enc_sim.
-    assert (wrapu 32 (Z.of_N size) = Z.of_N (u32 size)) as Eu.
-    { unfold wrapu, u32, two32. rewrite N2Z.inj_mod. reflexivity. }
-    rewrite Eu, Z.gtb_ltb. change 65536%Z with (Z.of_N c_max).
-    replace (Z.of_N c_max <? Z.of_N (u32 size))%Z with (c_max <? u32 size)
-      by (destruct (N.ltb_spec c_max (u32 size)); destruct (Z.ltb_spec (Z.of_N c_max) (Z.of_N (u32 size))); lia).
-    destruct (c_max <? u32 size); [eexists; reflexivity|].
+    rewrite Z.gtb_ltb. change 65536%Z with (Z.of_N c_max).
+    replace (Z.of_N c_max <? Z.of_N size)%Z with (c_max <? size)
+      by (destruct (N.ltb_spec c_max size); destruct (Z.ltb_spec (Z.of_N c_max) (Z.of_N size)); lia).
+    destruct (c_max <? size); [eexists; reflexivity|].
     f_equal. f_equal. f_equal.
     assert (be 4 (unbe (take 4 (dirt st0 14))) = t) as ->.
     { rewrite <- Et. replace 4%nat with (length t) by (unfold len in L0; lia). apply be_unbe.
